@@ -191,9 +191,9 @@ def extract_codec_b():
     srv = _non_test(os.path.join(P, "dns", "dns_server.rs"))
     cli = _non_test(os.path.join(P, "dns", "dns_client.rs"))
     for src, what, pats in (
-            (srv, "DnsServer", (r"from_bytes\([^;]*?\)\s*\.(unwrap|expect)\(", r"query_name\(\)\s*\.(unwrap|expect)\(",
+            (srv, "DnsServer", (r"\.recv\w*\([^;]*?\)\s*\.await\s*\.(unwrap|expect)\(", r"from_bytes\([^;]*?\)\s*\.(unwrap|expect)\(", r"query_name\(\)\s*\.(unwrap|expect)\(",
                                r"respond_to_query\([^;]*?\)\s*\.await\s*\.(unwrap|expect)\(")),
-            (cli, "DnsClient::get_host_by_name", (r"from_bytes\([^;]*?\)\s*\.(unwrap|expect)\(", r"from_utf8\([^;]*?\)\s*\.(unwrap|expect)\(",
+            (cli, "DnsClient::get_host_by_name", (r"\.recv\w*\([^;]*?\)\s*\.await\s*\.(unwrap|expect)\(", r"from_bytes\([^;]*?\)\s*\.(unwrap|expect)\(", r"from_utf8\([^;]*?\)\s*\.(unwrap|expect)\(",
                                                  r"get_mapping\(&name\)\s*\.(unwrap|expect)\("))):
         for pat in pats:
             if re.search(pat, src, flags=re.S):
